@@ -55,6 +55,7 @@ def run(ctx):
                             [('process_commits', pc), ('flush_logs', fl), ('enact_logs', en), ('clean_all_logs', ca), ('Log::kill_logs', lk)],
                             'without a background error: all queued commits are logged, then the log is flushed (handed to the applier), then applied, then tables are flushed and logs truncated, then pool files deleted',
                             removed_edges=none)
+        shared.shutdown_drains_every_flushed_log(ctx, '2d')    # F80
         # records logged before the drop are applied too: an enact loop and a flush precede process_commits? (not required)
         for nm, sites in (('process_commits', pc), ('enact_logs', en)):
             for i, s in enumerate(sites):
